@@ -23,6 +23,8 @@
 (*   not trusted.                                                            *)
 (* GEN_MODE = "nl": first fixes straddling an NL transition latitude (see    *)
 (*   NLScenario below).                                                      *)
+(* GEN_MODE = "e2e": stationary two-receiver scenarios for the real jet1090  *)
+(*   binary (see E2EScenario below).                                         *)
 EXTENDS Integers, Sequences, TLC, Json, IOUtils, Bitwise
 
 C == INSTANCE CPR
@@ -247,10 +249,47 @@ NLScenario(k) ==
   IN  [id |-> k, fam |-> "nlpair", ref |-> << c, M >>, refu |-> NONE,
        reports |-> before \o (IF sw = 0 THEN << r1, r2 >> ELSE << r2, r1 >>) \o after]
 
+(***************************************************************************)
+(* "e2e" mode: scenarios for the real jet1090 binary, which stamps frames  *)
+(* with the wall clock.  Every aircraft is STATIONARY, so the truth of a   *)
+(* report does not depend on when it is delivered and no timing of the     *)
+(* test bench can produce a false alarm.  Two sources with receiver        *)
+(* references RA and RB, 1.3 deg of latitude (78 NM) apart: surface        *)
+(* aircraft 2 sits next to RA and is heard by source 0, surface aircraft 0 *)
+(* next to RB by source 1 -- decoded against the other source's reference  *)
+(* a surface report lands one 90 NM zone away.  Aircraft 1 (DF17) and the  *)
+(* two DF18 targets 3 and 4 are airborne at different places, their even   *)
+(* and odd reports interleaved.  Two trailing pairs after a pause flush    *)
+(* jet1090's deduplication window.                                         *)
+(***************************************************************************)
+E2EScenario(k) ==
+  LET anchor == Anchor(k)
+      sg == IF anchor[1] >= 0 THEN 1 ELSE 0 - 1
+      RA == << ClampL(anchor[1]), anchor[2] >>
+      RB == << RA[1] - sg * 60584, WrapM(RA[2] + 9000) >>
+      pos == [a \in 0..4 |->
+                CASE a = 0 -> << RB[1] + sg * 1100, WrapM(RB[2] - 900) >>
+                  [] a = 1 -> << RA[1] - sg * 9320, WrapM(RA[2] + 20000) >>
+                  [] a = 2 -> << RA[1] - sg * 1500, WrapM(RA[2] + 1200) >>
+                  [] a = 3 -> << RA[1] - sg * 14000, WrapM(RA[2] + 30000) >>
+                  [] OTHER -> << RA[1] - sg * 19000, WrapM(RA[2] - 25000) >>]
+      kind == [a \in 0..4 |-> IF a \in {0, 2} THEN 1 ELSE 0]
+      round(n) == LET q == R(k, 20 + n) % 2
+                  IN  << <<1, q>>, <<3, q>>, <<4, q>>, <<1, 1 - q>>, <<3, 1 - q>>, <<4, 1 - q>>,
+                         <<2, q>>, <<0, q>>, <<2, 1 - q>>, <<0, 1 - q>> >>
+      order == round(1) \o round(2) \o << <<1, 0>>, <<4, 0>>, <<1, 1>>, <<4, 1>> >>
+  IN  [id |-> k, fam |-> "e2e", ref |-> RA, refu |-> NONE, refs |-> << RA, RB >>,
+       rxof |-> << <<0, 1>>, <<1, 0>>, <<2, 0>>, <<3, 0>>, <<4, 1>> >>,
+       pause_before |-> << 21, 23 >>,
+       reports |-> [i \in 1..Len(order) |->
+                      LET a == order[i][1] IN
+                      Rep(a, i * 100, kind[a], order[i][2], pos[a][1], pos[a][2], NONE)]]
+
 From == atoi(IOEnv.GEN_FROM)
 To == atoi(IOEnv.GEN_TO)
 ASSUME CASE Mode = "hist" -> \A i \in 1..Len(Hists) : PrintT(ToJson(HistScenario(Hists[i])))
          [] Mode = "nl" -> \A k \in From..To : IF NLKeep(k) THEN PrintT(ToJson(NLScenario(k))) ELSE TRUE
+         [] Mode = "e2e" -> \A k \in From..To : PrintT(ToJson(E2EScenario(k)))
          [] OTHER -> \A k \in From..To : PrintT(ToJson(RandScenario(k)))
 
 VARIABLE x
